@@ -9,7 +9,7 @@ from mc.engine import Viol
 
 PROP = "C10"
 TEXTS = ["plain.txt", "with space.txt", "ümläut/ß.mov", "amp&lt<gt>quot\"apos'.x", "cdata]]>end", " leading-blank", "trailing-blank ",
-         "line\u2028sep", "para\u2029sep", "nb\u00a0sp", "astral\U0001F3AC.mov", "dir/sub dir/deep file.bin"]
+         "back\\slash.txt", "#hash & ; semi.txt", "line\u2028sep", "para\u2029sep", "nb\u00a0sp", "astral\U0001F3AC.mov", "dir/sub dir/deep file.bin"]
 DIG = {"md5": "d41d8cd98f00b204e9800998ecf8427e", "sha1": "da39a3ee5e6b4b0d3255bfef95601890afd80709",
        "xxh64": "ef46db3751d8e999", "xxh3": "2d06800538d394c2", "xxh128": "99aa06d3014798d86001c324468d497f",
        "c4": ref.KAT_EMPTY["c4"]}
@@ -35,7 +35,7 @@ ALTS = {
     "dirpath": ["ümläut dir", "a&b<c>", "d/e/f", "dir\u2029p"],
     "dirfmts": [["md5"], ["xxh64", "c4", "md5"], list(ref.FORMATS_CLI), []],
     "roothash": [None, ["md5"], ["xxh64", "c4"]],
-    "patterns": [["*.tmp"], ["a b", "ü&<x>", "sub/"], [".DS_Store", "ascmhl", "ascmhl/", "*.tmp", "x y/"], ["pat\u2028tern"]],
+    "patterns": [["*.tmp"], ["a b", "ü&<x>", "sub/"], ["#lead", "trail ", "back\\slash", "!neg", "a/**/b"], [".DS_Store", "ascmhl", "ascmhl/", "*.tmp", "x y/"], ["pat\u2028tern"]],
     "refs": [1, 2],
     "host": ["host name", "hößt&<", "h\u2028ost"],
     "tool": [("my tool", "0.1 beta"), ("t&<", "v\"1\"")],
